@@ -238,6 +238,52 @@ func rewriteFile(pkg *packages.Package, file *ast.File, simrtPath string, rep *r
 		return false
 	}, nil)
 
+	// 1b. os.Stdin used as an io.Reader (argument of an interface-typed parameter, or receiver of Read)
+	astutil.Apply(file, func(c *astutil.Cursor) bool {
+		isStdin := func(e ast.Expr) bool {
+			sel, ok := e.(*ast.SelectorExpr)
+			if !ok {
+				return false
+			}
+			v, ok := info.Uses[sel.Sel].(*types.Var)
+			return ok && v.Pkg() != nil && v.Pkg().Path() == "os" && v.Name() == "Stdin"
+		}
+		mk := func() ast.Expr {
+			return &ast.CallExpr{Fun: &ast.SelectorExpr{X: ast.NewIdent("simrt"), Sel: ast.NewIdent("Stdin")}}
+		}
+		switch n := c.Node().(type) {
+		case *ast.CallExpr:
+			sig, _ := info.TypeOf(n.Fun).(*types.Signature)
+			for i, a := range n.Args {
+				if !isStdin(a) || sig == nil {
+					continue
+				}
+				var pt types.Type
+				if i < sig.Params().Len() {
+					pt = sig.Params().At(i).Type()
+				} else if sig.Variadic() && sig.Params().Len() > 0 {
+					if sl, ok := sig.Params().At(sig.Params().Len() - 1).Type().(*types.Slice); ok {
+						pt = sl.Elem()
+					}
+				}
+				if pt == nil {
+					continue
+				}
+				if _, isIface := pt.Underlying().(*types.Interface); isIface {
+					n.Args[i] = mk()
+					rep.CallSites["os.Stdin(reader)"]++
+					changed = true
+				}
+			}
+			if sel, ok := n.Fun.(*ast.SelectorExpr); ok && sel.Sel.Name == "Read" && isStdin(sel.X) {
+				sel.X = mk()
+				rep.CallSites["os.Stdin(reader)"]++
+				changed = true
+			}
+		}
+		return true
+	}, nil)
+
 	// 2. range over map
 	var stack []ast.Node
 	ast.Inspect(file, func(n ast.Node) bool {
